@@ -85,6 +85,7 @@ class Cont:
     lengths = [0, 1, 2, 3, 5, 8, 4097]
     rewrites = True            # the header holds a length that is rewritten by updates / close
     kf_ids = ()
+    driver = "small2"          # the `sfmodel` sub-command that runs the container's model (vlib/small3.py: "small3")
 
     def formats(self, ctx):
         return [f for f in FM.writable_formats(ctx) if f.major == self.major and f.codec in BYTEWIDTH]
@@ -119,6 +120,10 @@ class Cont:
 
     def extra_jobs(self, ctx, fmts, rng):
         return []
+
+    def rate_formats(self, fmts):
+        """the formats that run once at every listed rate in the quick tier"""
+        return fmts
 
     def hdr_len(self, b):
         return len(b)
@@ -423,7 +428,7 @@ def make_jobs(ctx, cont, fmts, quick):
                 for sr in ([None] if quick else rates):
                     k += 1
                     jobs.append(Job(cont, f, ch, rates[k % len(rates)] if sr is None else sr, split(n), rng.choice([0, 3, 99999]), rng.random() < 0.3, rng))
-        if quick:
+        if quick and f in cont.rate_formats(fmts):
             for sr in rates:
                 jobs.append(Job(cont, f, rng.choice(cont.channels(f)), sr, split(rng.choice([1, 2, 3, 4, 7])), rng.choice([0, 12345]), rng.random() < 0.3, rng))
             jobs.append(Job(cont, f, rng.choice(cont.channels(f)), rng.choice(rates), split(cont.lengths[-1]), 0, False, rng))
@@ -439,6 +444,7 @@ def parse_dump(line):
 def predicate(j, dumps, lines):
     """problems of the library's own transcript against C04 / C11 (empty = holds)"""
     cont = j.c
+    cont._job = j              # for rate rules that depend on the session (VOC: which block type holds the rate)
     probs = []
     final, snap = dumps[2], dumps[1]
     reopen, rd, crash = lines[-4], lines[-3], lines[-1]
@@ -459,7 +465,7 @@ def predicate(j, dumps, lines):
         if not rd.startswith("ret=%d " % fr):
             probs.append("reading to end of file: %s, %d frames announced" % (rd[:40], fr))
         probs += cont.size_problems(j, final, fr)
-    if cont.rewrites:
+    if cont.rewrites and (j.parts[0] > 0 or not j.auto):      # C11 speaks about the store after an update / after a write call in auto mode
         if not crash.startswith("open=ok"):
             probs.append("[C11] the image left by the header update cannot be opened: " + crash)
         else:
@@ -492,7 +498,7 @@ def writer_campaign(ctx, cont, fmts, quick):
     scripts = [(j.name(i), j.script()) for i, j in enumerate(jobs)]
     twins = [("twin-" + j.name(i), j.script(stale=j.stale + 54321, tail=False)) for i, j in enumerate(jobs)]
     impl = ctx.batch(scripts + twins, workers=4)
-    model = ctx.run_model(["small2", cont.name], "".join(j.model_line() + "\n" for j in jobs)).split("\n")
+    model = ctx.run_model([cont.driver, cont.name], "".join(j.model_line() + "\n" for j in jobs)).split("\n")
     stats = collections.Counter()
     corr, pred, known, files = [], [], [], []
     for i, j in enumerate(jobs):
@@ -571,7 +577,7 @@ def reader_campaign(ctx, cont, files, quick):
         cases.append(("%s:final" % j.f.name, final))
         cases.append(("%s:snap" % j.f.name, snap))
         key = (j.f.word, min(j.ch, 3))
-        if j.n > 16 or per_fmt[key] >= (1 if quick else 3):
+        if j.n > 16 or per_fmt[key] >= (1 if quick else 3) or (quick and sum(per_fmt.values()) >= getattr(cont, "max_mutated", 10 ** 9)):
             continue
         per_fmt[key] += 1
         for tag, m in mutants(cont, final, rng, full=not quick):
@@ -586,7 +592,7 @@ def reader_campaign(ctx, cont, files, quick):
             L += ["store s0 %s" % m.hex(), "open h0 s0 r", "close h0"]
         scripts.append(("%s-parse-%d" % (cont.name, g // group), "\n".join(L) + "\n"))
     impl = ctx.batch(scripts, workers=4)
-    model = ctx.run_model(["small2", cont.name], "".join("parse %s\n" % (m.hex() or "-") for (_, m) in cases)).split("\n")
+    model = ctx.run_model([cont.driver, cont.name], "".join("parse %s\n" % (m.hex() or "-") for (_, m) in cases)).split("\n")
     stats = collections.Counter()
     bad = []
     for gi, (name, text) in enumerate(scripts):
@@ -616,12 +622,12 @@ def reader_campaign(ctx, cont, files, quick):
 
 # ---------------------------------------------------------------- entry point
 
-def run(ctx, found=False, only=None):
+def run(ctx, found=False, only=None, conts=None, key="small2"):
     """called from vlib/props/c04.py after the other C04 campaigns; returns True when it reported a violation"""
     quick = ctx.tier == "quick"
     reported = False
     notes = {}
-    for cont in CONTS:
+    for cont in (conts or CONTS):
         if only and cont.name not in only:
             continue
         fmts = cont.formats(ctx)
@@ -630,7 +636,7 @@ def run(ctx, found=False, only=None):
         jobs, files, corr, pred, known, wstats = writer_campaign(ctx, cont, fmts, quick)
         bad, rstats = reader_campaign(ctx, cont, files, quick)
         rates = sorted(set(cont.rates + [ctx.rng.randrange(1, 2 ** 31) for _ in range(100)] + [ctx.rng.randrange(1, 70000) for _ in range(100)]))
-        back = ctx.run_model(["small2", cont.name], "".join("quant %d\n" % r for r in rates)).split("\n")
+        back = ctx.run_model([cont.driver, cont.name], "".join("quant %d\n" % r for r in rates)).split("\n")
         qbad = [(r, l) for r, l in zip(rates, back) if l != str(cont.quant(r))]
         if cont.name == "htk":
             # the class predicate of KF-HTK-MAGIC-CLASH here against Sf.C04Htk.KF.magicClash (driver `clash`)
@@ -680,5 +686,5 @@ def run(ctx, found=False, only=None):
     notes["rule"] = ("per container: every accepted (subtype, endian) x channels {1,2,3,6 up to the container's limit} x N {0,1,2,3,5,8,4097} with rotating rates "
                      "(quick) or the full rate list (thorough) plus every listed rate once per format; three store images per session compared byte for byte "
                      "in the header; twin session with another stale frames value; re-open, read to EOF, crash image; library files and their mutants parsed by both sides")
-    ctx.notes["small2"] = notes
+    ctx.notes[key] = notes
     return reported
